@@ -1068,8 +1068,12 @@ _ISINSTANCE = {"int": {"int", "bool"}, "float": {"float"}, "complex": {"complex"
                "str": {"str"}, "bytes": {"bytes"}, "bool": {"bool"},
                "tuple": {"tuple"}, "list": {"list"}, "dict": {"dict"},
                "set": {"set"}, "frozenset": {"frozenset"}}
-_ATOM_ADMITS = {"int": {"int", "bool"}, "str": {"str"}, "bool": {"bool"},
-                "float": {"float", "int", "bool"}, "bytes": {"bytes"},
+# what msgspec DECODES for a declared atom (strict mode): `bool` is not covered
+# by `int` (msgpack true/false is rejected for an int field: "Expected `int |
+# str`, got `bool`"), although isinstance(True, int) and construction/encoding
+# never validate; an int is accepted for a float field, a bool is not
+_ATOM_ADMITS = {"int": {"int"}, "str": {"str"}, "bool": {"bool"},
+                "float": {"float", "int"}, "bytes": {"bytes"},
                 "None": {"NoneType"}}
 
 
